@@ -267,11 +267,21 @@ def Gen.cppIsKnown (g : Gen) (es : List (Name × Int)) (v : Int) : Bool :=
 def Gen.labelValues (g : Gen) (es : List (Name × Int)) : List (Option Int) :=
   g.toName.map (fun p => lookup es p.1)
 
-/-- `operator<<`: the name if there is one, else the number. -/
-def Gen.cppShow (g : Gen) (es : List (Name × Int)) (v : Int) : String :=
+/-- What `operator<<` sends to the stream. -/
+inductive Shown where
+  | name (n : Name)
+  | number (v : Int)
+  /-- `::std::int8_t`/`::std::uint8_t` are character types: `os << static_cast<uint8_t>(65)`
+  writes the byte `A`. -/
+  | byte (b : Nat)
+deriving DecidableEq, Repr
+
+/-- `operator<<` (`SendToOstream`): the name if there is one, else
+`os << static_cast<underlying_type>(v)`. -/
+def Gen.cppShow (g : Gen) (es : List (Name × Int)) (v : Int) : Shown :=
   match g.cppToName es v with
-  | some n => String.ofList n
-  | none => toString v
+  | some n => .name n
+  | none => if g.ty.bits = 8 then .byte (v % 256).toNat else .number v
 
 /-! ## `EnumView` over a `kBits`-wide field -/
 
